@@ -20,11 +20,24 @@ import (
 	"fmt"
 	"time"
 
+	"github.com/olric-data/olric/internal/cluster/partitions"
+	"github.com/olric-data/olric/internal/discovery"
 	"github.com/olric-data/olric/internal/protocol"
 	"github.com/olric-data/olric/internal/resp"
 	"github.com/olric-data/olric/internal/util"
 	"github.com/olric-data/olric/pkg/storage"
+	"github.com/redis/go-redis/v9"
 )
+
+// atomicOwner returns the owner of the key's partition and whether it is this
+// member. The fine-grained lock taken by the read-modify-write operations is
+// local to a member, so they are only atomic when every caller runs them on
+// the partition owner.
+func (dm *DMap) atomicOwner(e *env) (discovery.Member, bool) {
+	hkey := partitions.HKey(e.dmap, e.key)
+	member := dm.s.primary.PartitionByHKey(hkey).Owner()
+	return member, member.CompareByName(dm.s.rt.This())
+}
 
 func (dm *DMap) loadCurrentAtomicInt(e *env) (int, int64, error) {
 	entry, err := dm.Get(e.ctx, e.key)
@@ -46,6 +59,28 @@ func (dm *DMap) loadCurrentAtomicInt(e *env) (int, int64, error) {
 }
 
 func (dm *DMap) atomicIncrDecr(cmd string, e *env, delta int) (int, error) {
+	if owner, local := dm.atomicOwner(e); !local {
+		// Redirect to the partition owner.
+		var rcmd *redis.IntCmd
+		switch cmd {
+		case protocol.DMap.Incr:
+			rcmd = protocol.NewIncr(e.dmap, e.key, delta).Command(e.ctx)
+		case protocol.DMap.Decr:
+			rcmd = protocol.NewDecr(e.dmap, e.key, delta).Command(e.ctx)
+		default:
+			return 0, fmt.Errorf("invalid operation")
+		}
+		rc := dm.s.client.Get(owner.String())
+		if err := rc.Process(e.ctx, rcmd); err != nil {
+			return 0, protocol.ConvertError(err)
+		}
+		res, err := rcmd.Result()
+		if err != nil {
+			return 0, protocol.ConvertError(err)
+		}
+		return int(res), nil
+	}
+
 	atomicKey := e.dmap + e.key
 	dm.s.locker.Lock(atomicKey)
 	defer func() {
@@ -110,6 +145,27 @@ func (dm *DMap) Decr(ctx context.Context, key string, delta int) (int, error) {
 }
 
 func (dm *DMap) getPut(e *env) (storage.Entry, error) {
+	if owner, local := dm.atomicOwner(e); !local {
+		// Redirect to the partition owner.
+		rcmd := protocol.NewGetPut(e.dmap, e.key, e.value).SetRaw().Command(e.ctx)
+		rc := dm.s.client.Get(owner.String())
+		err := rc.Process(e.ctx, rcmd)
+		if errors.Is(err, redis.Nil) {
+			// There was no previous value.
+			return nil, nil
+		}
+		if err != nil {
+			return nil, protocol.ConvertError(err)
+		}
+		raw, err := rcmd.Bytes()
+		if err != nil {
+			return nil, protocol.ConvertError(err)
+		}
+		entry := dm.engine.NewEntry()
+		entry.Decode(raw)
+		return entry, nil
+	}
+
 	atomicKey := e.dmap + e.key
 	dm.s.locker.Lock(atomicKey)
 	defer func() {
@@ -169,6 +225,20 @@ func (dm *DMap) GetPut(ctx context.Context, key string, value interface{}) (stor
 }
 
 func (dm *DMap) atomicIncrByFloat(e *env, delta float64) (float64, error) {
+	if owner, local := dm.atomicOwner(e); !local {
+		// Redirect to the partition owner.
+		rcmd := protocol.NewIncrByFloat(e.dmap, e.key, delta).Command(e.ctx)
+		rc := dm.s.client.Get(owner.String())
+		if err := rc.Process(e.ctx, rcmd); err != nil {
+			return 0, protocol.ConvertError(err)
+		}
+		res, err := rcmd.Result()
+		if err != nil {
+			return 0, protocol.ConvertError(err)
+		}
+		return res, nil
+	}
+
 	atomicKey := e.dmap + e.key
 	dm.s.locker.Lock(atomicKey)
 	defer func() {
